@@ -465,14 +465,45 @@ theorem loads_getD (ws : List Int) (ids : List Nat) (k p : Nat) (hp : p < k) :
   unfold Coupe.loads
   simp [List.getD_eq_getElem?_getD, List.getElem?_map, List.getElem?_range hp]
 
+theorem gain_sub_loss (pw0 tpw : Int) : taskGain pw0 tpw - taskLoss pw0 tpw = tpw - pw0 := by
+  unfold taskGain taskLoss; split <;> omega
+
+theorem gainSum_sub_lossSum (l : List Task) (p : Nat) (pw0 : Int) :
+    (l.map fun t => taskGain pw0 (t.pw.getD p 0)).sum - (l.map fun t => taskLoss pw0 (t.pw.getD p 0)).sum
+      = (l.map fun t => t.pw.getD p 0 - pw0).sum := by
+  induction l with
+  | nil => simp
+  | cons a l ih =>
+    simp only [List.map_cons, List.sum_cons]
+    have := gain_sub_loss pw0 (a.pw.getD p 0)
+    omega
+
 theorem mergePw_getD (c : Cfg) (s : State) (p : Nat) (hp : p < s.pw.length) :
     (mergePw c s).getD p 0 =
-      (s.tasks.map fun t => t.pw.getD p 0).sum - ((c.threadCount : Int) - 1) * s.pw.getD p 0 := by
+      s.pw.getD p 0 + gainSum s p (s.pw.getD p 0) - lossSum s p (s.pw.getD p 0) := by
   unfold mergePw
   simp [List.getD_eq_getElem?_getD, List.getElem?_map, List.getElem?_zipIdx, List.getElem?_eq_getElem hp]
 
+theorem mergePwOld_getD (c : Cfg) (s : State) (p : Nat) (hp : p < s.pw.length) :
+    (mergePwOld c s).getD p 0 =
+      (s.tasks.map fun t => t.pw.getD p 0).sum - ((c.threadCount : Int) - 1) * s.pw.getD p 0 := by
+  unfold mergePwOld
+  simp [List.getD_eq_getElem?_getD, List.getElem?_map, List.getElem?_zipIdx, List.getElem?_eq_getElem hp]
+
+/-- The repaired merge adds the tasks' net changes to the pass's initial weight. -/
+theorem mergePw_getD_net (c : Cfg) (s : State) (p : Nat) (hp : p < s.pw.length) :
+    (mergePw c s).getD p 0 =
+      s.pw.getD p 0 + (s.tasks.map fun t => t.pw.getD p 0 - s.pw.getD p 0).sum := by
+  rw [mergePw_getD c s p hp]
+  have := gainSum_sub_lossSum s.tasks p (s.pw.getD p 0)
+  unfold gainSum lossSum
+  omega
+
 theorem mergePw_length (c : Cfg) (s : State) : (mergePw c s).length = s.pw.length := by
   simp [mergePw]
+
+theorem mergePwOld_length (c : Cfg) (s : State) : (mergePwOld c s).length = s.pw.length := by
+  simp [mergePwOld]
 
 theorem tmaxOf_getD (c : Cfg) (pw : List Int) (p : Nat) (hp : p < pw.length) :
     (tmaxOf c pw).getD p 0 = pw.getD p 0 + Int.tdiv (c.maxPw - pw.getD p 0) c.threadCount := by
@@ -736,10 +767,7 @@ theorem endPass_facts {c : Cfg} {p₀ : List Nat} (hy : Hyp c p₀) {s : State} 
   · rw [hf]; simp only; rw [mergePw_length]; exact h2.pwlen.1
   · intro p hp
     rw [hf]; simp only
-    rw [mergePw_getD c s p (by rw [h2.pwlen.1]; exact hp), h2.loadAcct p hp, sum_map_sub_const, h2.ntasks]
-    have : ((c.threadCount : Int) - 1) * s.pw.getD p 0 = c.threadCount * s.pw.getD p 0 - s.pw.getD p 0 := by
-      rw [Int.sub_mul]; simp
-    rw [this]; omega
+    rw [mergePw_getD_net c s p (by rw [h2.pwlen.1]; exact hp), h2.loadAcct p hp]
 
 theorem inv2_reach {c : Cfg} {p₀ : List Nat} (hy : Hyp c p₀) {s : State} (h : Reach c p₀ s) : Inv2 c p₀ s := by
   induction h with
